@@ -472,8 +472,27 @@ class RefBlock:
         Returns:
             The position where ref records end and footer begins
         """
-        # Look for embedded footer marker pattern
         marker_pattern = b"\x00\x00" + bytes([EMBEDDED_FOOTER_MARKER])
+
+        # The footer written by RefBlock.encode has a fixed layout counted
+        # from the end of the block: marker, restart information (2 bytes for
+        # one ref, 5 bytes ending in the restart count 2 otherwise), a copy of
+        # the header and 4 bytes of padding. Locate it from there: the marker
+        # bytes can just as well occur inside a record (an object id
+        # containing 00 00 1c, or an update index delta of 0 followed by an
+        # id starting 00 1c).
+        tail = HEADER_SIZE_V1 + 4
+        for restart_info, restart_count in ((5, 2), (2, 1)):
+            pos = len(data) - tail - restart_info - len(marker_pattern)
+            if (
+                pos > 0
+                and data[pos : pos + len(marker_pattern)] == marker_pattern
+                and data[len(data) - tail - 1] == restart_count
+                and data[len(data) - tail : len(data) - tail + 4] == REFTABLE_MAGIC
+            ):
+                return pos
+
+        # Look for embedded footer marker pattern
         marker_pos = data.find(marker_pattern)
         if marker_pos > 0:
             return marker_pos
